@@ -293,3 +293,10 @@ example : checkUsage true ⟨[.signal], [⟨.seq, [⟨0, .push, false⟩]⟩], [
 example : checkUsage true ⟨[.portIn], [⟨.seq, [⟨0, .push, false⟩]⟩], []⟩ = false := by decide
 example : accept true ⟨[.signal], [⟨.seq, [⟨0, .write, false⟩, ⟨0, .push, false⟩]⟩], []⟩ = true := by decide
 example : accept true ⟨[.signal], [⟨.conc, [⟨0, .push, false⟩]⟩], []⟩ = false := by decide
+
+-- several outputs of ONE instance on one root: the instance loop is strict (`if sig_root in written_in: raise`), so the
+-- second output is rejected whatever parts are connected (overlapping parts MUST be rejected; disjoint parts are
+-- over-rejected) - also after a context wrote the root, and for two instances
+example : checkUsage true ⟨[.signal, .portIn], [], [⟨[1], [0, 0]⟩]⟩ = false := by decide
+example : checkUsage true ⟨[.signal, .portIn], [], [⟨[1], [0]⟩, ⟨[1], [0]⟩]⟩ = false := by decide
+example : checkUsage true ⟨[.signal, .signal, .portIn], [], [⟨[2], [0, 1]⟩]⟩ = true := by decide
